@@ -12,6 +12,8 @@ from vf.effects import Patch
 from pony import orm
 from pony.orm import core
 from contracts import c13, c12_partial as PL
+from contracts import c12_batches as BT
+from contracts import c12_refused as RF
 
 META = dict(
     level='other',
@@ -302,4 +304,8 @@ CONTRACTS = [
              [('both_ends_and_rows_agree_with_the_links_made', PL.spec)], level='bounded', bound=PL.BOUND),
     Contract('one_to_one_reassignment', ['pony.orm.core:Attribute.__set__', 'pony.orm.core:Attribute.update_reverse', 'pony.orm.core:Entity._delete_'], PL.o2o_configs, PL.o2o_case,
              [('both_ends_and_rows_agree_with_the_links_made', PL.spec)], level='bounded', bound=PL.O2O_BOUND),
+    Contract('collections_loaded_in_batches', ['pony.orm.core:Set.load', 'pony.orm.core:Set.db_reverse_add', 'pony.orm.core:EntityMeta._construct_batchload_sql_', 'pony.orm.core:SetInstance.__contains__'],
+             BT.configs, BT.case, [('every_collection_equals_the_stored_links_and_both_ends_agree', BT.spec)], level='bounded', bound=BT.BOUND),
+    Contract('refused_delete_leaves_both_ends', ['pony.orm.core:Entity._delete_', 'pony.orm.core:Attribute.__set__', 'pony.orm.core:Set.reverse_remove', 'pony.orm.core:Set.__set__'],
+             RF.configs, RF.case, [('both_ends_are_as_before_the_refused_delete', RF.spec)], level='bounded', bound=RF.BOUND),
 ]
